@@ -39,12 +39,14 @@ enum {
 enum { KIND_FD, KIND_TIMER, KIND_TASK, KIND_EVENT, KIND_RAW, NKIND };
 static const char *kind_name[NKIND] = { "fd", "timer", "task", "event", "raw" };
 #define MAXFD 8
-#define MAXTIMER 12
+#define MAXTIMER 48
 #define MAXTASK 6
 #define MAXEV 4
 #define MAXRAW 3
 
 static int cfg_method, cfg_alloc_reuse, cfg_clk_pct, cfg_eintr_pct, cfg_pwait2_err;
+static int64_t cfg_cb_cost;   /* virtual time every callback takes (too little to oblige iv_invalidate_now) */
+static int64_t entry_reading;  /* the thread's last clock reading when the current wait was entered */
 static int cfg_nfd, cfg_ntimer, cfg_ntask, cfg_nev, cfg_nraw;
 static long budget;
 static int profile;      /* 0 all, 1 fd, 2 timer, 3 task, 4 lifecycle(C07) */
@@ -100,6 +102,8 @@ static int tfd_was_armed;
 static int cur_kind = -1, cur_id = -1;   /* running callback's object */
 static int blocked_env_event;       /* an env event was performed in the current wait */
 static int task_pending_iters;
+static int idle_waits;
+static long callbacks_this_iter_tasks;
 
 static int n_registered(void)
 {
@@ -189,6 +193,7 @@ static void cb_enter(struct cell *c, int kind)
 	if (c->kind != kind) fail_any("cookie-kind-mismatch", "callback kind %s got cookie of kind %s", kind_name[kind], kind_name[c->kind]);
 	cur_kind = kind; cur_id = c->id;
 	budget--;
+	if (cfg_cb_cost) vk_advance(cfg_cb_cost);
 }
 static void cb_leave(void)
 {
@@ -461,6 +466,7 @@ static void task_cb(void *cookie)
 	cb_enter(c, KIND_TASK);
 	struct tko *t = &tkos[c->id];
 	vz_log("iter %lu: task%d handler", iter, c->id);
+	callbacks_this_iter_tasks++;
 	if (!c->live || c != t->cell || !t->registered) {
 		FAILP("C06", "ran-not-registered", "task%d handler ran although not registered (twice, or after unregister)", c->id);
 		FAILP("C01", "callback-after-unregister", "task%d handler ran after unregister/run (gen %u)", c->id, c->gen);
@@ -613,7 +619,7 @@ static const unsigned char weights[5][NACT] = {
 
 static int pick_registered(int kind, int want_reg, int self_id)
 {
-	int n = 0, ids[16], cnt;
+	int n = 0, ids[MAXTIMER], cnt;
 	switch (kind) {
 	case KIND_FD: cnt = cfg_nfd; break; case KIND_TIMER: cnt = cfg_ntimer; break; case KIND_TASK: cnt = cfg_ntask; break;
 	case KIND_EVENT: cnt = cfg_nev; break; default: cnt = cfg_nraw; break;
@@ -750,23 +756,34 @@ static void hook_wait_entry(struct vk_wait *w)
 	last_wait_polled = 1;
 	iter++;
 	callbacks_this_iter = 0; blocked_env_event = 0;
+	entry_reading = vk_last_reading();
 	vz_log("wait #%lu %s timeout=%lld ns%s", iter, vk_prim_name[w->prim], (long long)w->timeout_ns, w->tfd_armed ? " (timerfd armed)" : "");
 	int nreg = n_registered();
-	if (quit_called) FAILP("C07", "should-have-returned", "loop waits again although iv_quit was called");
-	if (nreg == 0) FAILP("C07", "should-have-returned", "loop waits although no object is registered");
-	if (nreg == 0 || quit_called) fail_any("loop-did-not-return", "loop waits although %s", quit_called ? "iv_quit was called" : "nothing is registered");
+	/* The loop may finish library-internal work (e.g. the local-event task left behind by a post whose
+	 * event was unregistered) with non-blocking polls before it returns; it may not keep going. */
+	if (nreg == 0 || quit_called) {
+		if (++idle_waits > 2) {
+			FAILP("C07", "should-have-returned", "loop made %d waits although %s", idle_waits, quit_called ? "iv_quit was called" : "no object is registered");
+			fail_any("loop-did-not-return", "loop keeps waiting although %s", quit_called ? "iv_quit was called" : "nothing is registered");
+		}
+	} else idle_waits = 0;
 	/* C04 due-not-fired: same timer due (per the thread's own clock) at two consecutive wait entries */
 	for (int i = 0; i < cfg_ntimer; i++) {
 		struct tmo *t = &tmos[i];
 		if (!t->registered) continue;
-		if (t->expires <= vk_last_reading()) {
-			if (++t->due_seen >= 2) FAILP("C04", "due-timer-not-fired", "timer%d due since two wait entries (clock %lld >= expires %lld) but not fired", i, (long long)vk_last_reading(), (long long)t->expires);
+		if (t->expires <= vk_now()) {
+			if (++t->due_seen >= 2) {
+				FAILP("C04", "due-timer-not-fired", "timer%d due since two wait entries (time %lld, loop's clock %lld, expires %lld) but not fired", i, (long long)vk_now(), (long long)vk_last_reading(), (long long)t->expires);
+				if (task_pending_iters > 0 || callbacks_this_iter_tasks > 0)
+					FAILP("C06", "timer-starved-by-tasks", "timer%d due since two wait entries while tasks keep running (time %lld, loop's clock %lld, expires %lld)", i, (long long)vk_now(), (long long)vk_last_reading(), (long long)t->expires);
+			}
 		} else t->due_seen = 0;
 	}
 	int anytask = 0;
 	for (int i = 0; i < cfg_ntask; i++) anytask |= tkos[i].registered;
 	if (anytask) { if (++task_pending_iters >= 5 && cfg_method == 0) vz_label(L_ZERO_DL_TFD); } else task_pending_iters = 0;
 	for (int i = 0; i < cfg_nfd; i++) fdos[i].touched = 0;
+	callbacks_this_iter_tasks = 0;
 	snapshot();
 }
 
@@ -776,6 +793,10 @@ static int hook_wait_block(struct vk_wait *w)
 {
 	if (!in_main) return VK_SLEEP;
 	char what[64];
+	if (n_registered() == 0 || quit_called) {
+		FAILP("C07", "should-have-returned", "loop blocks (timeout %lld ns) although %s", (long long)w->timeout_ns, quit_called ? "iv_quit was called" : "no object is registered");
+		fail_any("loop-did-not-return", "loop blocks although %s", quit_called ? "iv_quit was called" : "nothing is registered");
+	}
 	/* --- blocking-point oracles: nothing may be due --- */
 	if (any_due(what, sizeof what)) { FAILP("C02", "block-while-due", "loop blocks (timeout %lld ns) while %s is wanted and ready", (long long)w->timeout_ns, what);
 					  FAILP("C07", "block-while-due", "loop blocks while %s is wanted and ready", what); }
@@ -792,6 +813,9 @@ static int hook_wait_block(struct vk_wait *w)
 	if (e != VK_INF) {
 		int64_t slack = 0;
 		if (w->deadline == w->timeout_deadline && w->timeout_deadline != VK_INF && (w->prim == VK_EPOLL_WAIT || w->prim == VK_POLL)) slack = 1000000;
+		/* the timeout is computed from the loop's cached clock, so it may overshoot by what passed since that reading */
+		if (entry_reading >= 0 && w->entry_now > entry_reading) slack += w->entry_now - entry_reading;
+		if (w->deadline == w->tfd_deadline && w->tfd_deadline != VK_INF) slack = 0;   /* absolute kernel timer: exact */
 		if (w->deadline == VK_INF || w->deadline > e + slack) {
 			FAILP("C04", "oversleep", "loop blocks until %s but timer%d expires at now%+lld ns (%s timeout=%lld ns, timerfd %s)",
 			      w->deadline == VK_INF ? "forever" : "later", which, (long long)(e - vk_now()), vk_prim_name[w->prim], (long long)w->timeout_ns, w->tfd_armed ? "armed" : "off");
@@ -915,12 +939,13 @@ void target_run(void)
 	cfg_clk_pct = (int[]){ 0, 0, 10, 40 }[ch_n(4)];
 	cfg_eintr_pct = (int[]){ 0, 0, 0, 8 }[ch_n(4)];
 	cfg_pwait2_err = (int[]){ 0, 0, 0, 0, ENOSYS, EPERM }[ch_n(6)];
+	cfg_cb_cost = (int64_t[]){ 0, 0, 150, 40000 }[ch_n(4)];
 	if (vz_param_l("no_eintr", 0)) cfg_eintr_pct = 0;
 	if (vz_param_l("pwait2_err", -1) >= 0) cfg_pwait2_err = vz_param_l("pwait2_err", 0);
 	forced_eintr_prim = vz_param_l("eintr_prim", -1); forced_eintr_k = vz_param_l("eintr_k", -1);
 	forced_fault_sys = vz_param_l("fault_sys", -1); forced_fault_errno = vz_param_l("fault_errno", ENOSYS);
 	forced_fault_from = vz_param_l("fault_from", 0); forced_fault_count = vz_param_l("fault_count", 1 << 30);
-	cfg_nfd = 1 + ch_n(big ? MAXFD : 5); cfg_ntimer = 1 + ch_n(big ? MAXTIMER : 6); cfg_ntask = 1 + ch_n(big ? MAXTASK : 3);
+	cfg_nfd = 1 + ch_n(big ? MAXFD : 5); cfg_ntimer = 1 + ch_n(big ? (profile == 2 ? MAXTIMER : 12) : 6); cfg_ntask = 1 + ch_n(big ? MAXTASK : 3);
 	cfg_nev = 1 + ch_n(big ? MAXEV : 2); cfg_nraw = 1 + ch_n(big ? MAXRAW : 2);
 	budget = 20 + ch_n(big ? 250 : 100);
 	vz_label(L_M0 + cfg_method); vz_count(cfg_method, 1);
@@ -928,8 +953,8 @@ void target_run(void)
 
 	setenv("IV_EXCLUDE_POLL_METHOD", excl[cfg_method], 1);
 	const char *ex = vz_param("exclude", NULL); if (ex) setenv("IV_EXCLUDE_POLL_METHOD", ex, 1);
-	vz_log("config: method=%s alloc=%s clock-incr=%d%% eintr=%d%% pwait2-errno=%d objects fd=%d timer=%d task=%d event=%d raw=%d budget=%ld",
-	       mname[cfg_method], cfg_alloc_reuse ? "reuse" : "malloc/free", cfg_clk_pct, cfg_eintr_pct, cfg_pwait2_err, cfg_nfd, cfg_ntimer, cfg_ntask, cfg_nev, cfg_nraw, budget);
+	vz_log("config: method=%s alloc=%s clock-incr=%d%% callback-cost=%lldns eintr=%d%% pwait2-errno=%d objects fd=%d timer=%d task=%d event=%d raw=%d budget=%ld",
+	       mname[cfg_method], cfg_alloc_reuse ? "reuse" : "malloc/free", cfg_clk_pct, (long long)cfg_cb_cost, cfg_eintr_pct, cfg_pwait2_err, cfg_nfd, cfg_ntimer, cfg_ntask, cfg_nev, cfg_nraw, budget);
 
 	vk_reset();
 	vk_hooks.clock_incr = hook_clock_incr; vk_hooks.sysfault = hook_sysfault; vk_hooks.wait_entry = hook_wait_entry;
@@ -960,6 +985,8 @@ void target_run(void)
 		int before = n_registered();
 		vz_log("iv_main() with %d objects registered", before);
 		in_main = 1; last_wait_polled = 0; zero_progress = 0; cbs_since_wait_return = 0;
+		idle_waits = 0;
+		poll_calls++;   /* a new iv_main run is a new round for the task rules */
 		iv_main();
 		in_main = 0;
 		if (last_wait_polled) end_of_dispatch_checks();
